@@ -86,6 +86,15 @@ class ImplWorld(ImplExt):
             return "raise"
         return str(self._register(obs, kind))
 
+    def cmd_obsn(self, ts):
+        """constructed with subscribe=False: exists, is not subscribed"""
+        kind = ts[0]
+        try:
+            obs = KINDS[kind](self.dispatcher, subscribe=False)
+        except Exception:  # pylint: disable=broad-except
+            return "raise"
+        return str(self._register(obs, kind))
+
     def cmd_cog(self, ts):
         kind = ts[0]
         try:
@@ -952,6 +961,11 @@ class ImplEnv(ImplViz):
         self.last_step = res
         av = lst(o.operation_id for o in info["available_operations"])
         return f"{fmt_obs(obs)} || r {fmt_val(reward)} d {fmt_bool_(done)} t {fmt_bool_(truncated)} av {av}"
+
+    def cmd_esched(self, ts):
+        if getattr(self, "env", None) is None:
+            return "bad-op"
+        return "sched " + " | ".join(" ".join(fmt_sop(x) for x in ms) for ms in self.env.dispatcher.schedule.schedule)
 
     def cmd_estep(self, ts):
         try:
